@@ -67,37 +67,11 @@ Fixpoint outs_eqb (os : list (output V)) (ex : list (N * V)) : bool :=
   | _, _ => false
   end.
 
-(* ---- exploration from the root (untrusted: only the checks below matter) ----------------- *)
-Definition kids_of (s : N) (u : list N) : list (N * list N) :=
-  flat_map (fun c => match child s c with Ok (Some t) => [(t, u ++ [c])] | _ => [] end) labels.
-Fixpoint explore (fuel : nat) (stack : list (N * list N)) (m : nmap (list N))
-         (acc : list (N * list N)) : option (nmap (list N) * list (N * list N)) :=
-  match stack with
-  | [] => Some (m, acc)
-  | (s, u) :: q =>
-    match fuel with
-    | O => None
-    | S f =>
-      let kids := kids_of s u in
-      explore f (kids ++ q) (fold_left (fun m tv => nset (fst tv) (snd tv) m) kids m) ((s, u) :: acc)
-    end
-  end.
-
-Definition node_mem (m : nmap (list N)) (t : N) (v : list N) : bool :=
-  match nget t m with Some v' => list_eqb v v' | None => false end.
-
-(* all checks on one node (s, u) *)
-Definition node_ok (m : nmap (list N)) (maxdepth nouts : nat) (nd : N * list N) : bool :=
-  let s := fst nd in
-  let u := snd nd in
-  optN_eqb (walk ROOT u) (Some s)
-  && (negb (s =? ROOT) || is_nil u)
+(* ---- the checks ----------------------------------------------------------------------------- *)
+(* on one node: s is the state reached from the root by the string u *)
+Definition local_ok (maxdepth nouts : nat) (s : N) (u : list N) : bool :=
+  (negb (s =? ROOT) || is_nil u)
   && (length u <? maxdepth)%nat
-  && forallb (fun c => match child s c with
-                       | Ok (Some t) => node_mem m t (u ++ [c])
-                       | Ok None => true
-                       | _ => false
-                       end) labels
   && (is_nil u
       || match failof s with
          | Ok f => optN_eqb (walk ROOT (lsuf (tl u))) (Some f)
@@ -111,27 +85,37 @@ Definition node_ok (m : nmap (list N)) (maxdepth nouts : nat) (nd : N * list N) 
      | _ => false
      end.
 
-(* the whole certificate: exploration succeeds, the root is a node, every node passes, every
-   pattern is non-empty and is a node *)
-Definition cert_nodes (nslots : nat) : option (nmap (list N) * list (N * list N)) :=
-  explore (S nslots) [(ROOT, [])] (nset ROOT [] nempty) [].
+(* the whole goto tree below (s, u), by recursion on the depth still allowed: every label's child
+   answers without UB and is itself a checked node *)
+Fixpoint tree_ok (fuel : nat) (maxdepth nouts : nat) (s : N) (u : list N) : bool :=
+  match fuel with
+  | O => false
+  | S f =>
+    local_ok maxdepth nouts s u
+    && forallb (fun c => match child s c with
+                         | Ok (Some t) => tree_ok f maxdepth nouts t (u ++ [c])
+                         | Ok None => true
+                         | _ => false
+                         end) labels
+  end.
 
+Definition max_plen : nat := fold_left (fun m pv => Nat.max m (length (fst pv))) pvs 0%nat.
+
+(* the whole certificate: the tree below the root passes (no node is deeper than the longest
+   pattern), every pattern is non-empty and is a node *)
 Definition cert_ok (nslots nouts : nat) : bool :=
-  match cert_nodes nslots with
-  | None => false
-  | Some (m, nodes) =>
-    node_mem m ROOT []
-    && forallb (fun nd => node_mem m (fst nd) (snd nd)) nodes
-    && forallb (node_ok m (S nslots) nouts) nodes
-    && forallb (fun pv => negb (is_nil (fst pv)) && inT (fst pv)) pvs
-  end.
+  tree_ok (S max_plen) (S nslots) nouts ROOT []
+  && forallb (fun pv => negb (is_nil (fst pv)) && inT (fst pv)) pvs.
 
-(* number of nodes found (C15: the states reachable from the root) *)
-Definition cert_count (nslots : nat) : N :=
-  match cert_nodes nslots with
-  | None => 0
-  | Some (_, nodes) => N.of_nat (length nodes)
+(* number of nodes of the goto tree (C15: the states reachable from the root) *)
+Fixpoint tree_count (fuel : nat) (s : N) : N :=
+  match fuel with
+  | O => 0
+  | S f =>
+    fold_left (fun acc c => match child s c with Ok (Some t) => acc + tree_count f t | _ => acc end)
+              labels 1
   end.
+Definition cert_count : N := tree_count (S max_plen) ROOT.
 
 (* ---- the search loops, abstractly (the concrete models are proved equal to these) -------- *)
 Variable skip : N -> bool.           (* labels on which next_state answers ROOT at once *)
@@ -176,6 +160,6 @@ Definition bw_cert_ok {V} (veqb : V -> V -> bool) (A : bw_automaton V) (pvs : li
   let oget := bw_oget V A in
   is_standard (bw_kind A)
   && bwc_cert_ok V veqb sget oget pvs (length (bw_states A)) (length (bw_outputs A)).
-Definition bw_cert_count {V} (A : bw_automaton V) : N :=
+Definition bw_cert_count {V} (A : bw_automaton V) (pvs : list (list N * V)) : N :=
   let sget := bw_sget V A in
-  cert_count (bwc_child sget) byte_labels (length (bw_states A)).
+  cert_count V (bwc_child sget) byte_labels pvs.
